@@ -217,12 +217,6 @@ theorem C12_batched_none_lost_after (op : Op) (s : Nat) (tail : Option Err) (g :
   have := callFn_err_ignorable hfail
   simp [Ref.callGroups, hfail, terminal, this]
 
-theorem chainEventsG_false_errLast (ops : List Op) (src : List (Ev Val)) :
-    ErrLast (Ref.chainEventsG false ops src) := by
-  induction ops generalizing src with
-  | nil => exact cutTerminal_false_errLast src
-  | cons op ops ih => exact ih _
-
 /-- **C12_first_error_batched_partial.**  `C12_first_error_partial` for chains that may contain
 `apply` / `select` / `batch` operators with batch sizes.  With skipping off: the caller observes
 exactly the reference's outputs and then its first error — for a batched operator the records
